@@ -39,7 +39,31 @@ def length_index(parent, ntype):
     return -1      # not reached: the writer asserts that the parent is a callable or a compound
 
 
-inline(G + '_type_to_name')
+def gir_type_name(ns_name, giname):
+    """the name written for a type: local types (GI name `<this namespace>.<name>`) lose exactly the qualifier `<this namespace>.`;
+    types of other namespaces - also of a namespace whose name merely begins with this namespace's name - stay qualified"""
+    prefix = ns_name + '.'
+    return giname[len(prefix):] if giname.startswith(prefix) else giname
+
+
+def read_back_giname(ns_name, name):
+    """Namespace.type_from_name (the GIR reader): an unqualified name belongs to the namespace being read"""
+    return name if '.' in name else ns_name + '.' + name
+
+
+contract(G + '_type_to_name', params={'self': 'GIRWriter', 'typeval': 'Type'}, returns='str', props=('C07',),
+         raises={'AssertionError': 'True'},
+         ensures={
+             'C07.write.typename.only_the_own_qualifier_is_dropped':
+                 'result == gir_type_name(self._namespace.name, typeval.target_giname)',
+             'C07.write.typename.local_name_reads_back_as_the_same_gi_name':
+                 "implies(typeval.target_giname.startswith(self._namespace.name + '.') and '.' not in result, "
+                 "read_back_giname(self._namespace.name, result) == typeval.target_giname)",
+             'C07.write.typename.foreign_name_reads_back_as_the_same_gi_name':
+                 "implies(not typeval.target_giname.startswith(self._namespace.name + '.') and '.' in typeval.target_giname, "
+                 "read_back_giname(self._namespace.name, result) == typeval.target_giname)",
+         },
+         note='GI names have the form Namespace.Name; the second clause is the reader side (Namespace.type_from_name) composed with the writer')
 ARR = "implies(arg_tag_name == \\'array\\', %s)"
 contract(G + '_write_type', params={'self': 'GIRWriter', 'ntype': 'Type', 'relation': 'any', 'parent': 'Node?'},
          props=('C01', 'C07'), requires=['wf(self)'], modifies=WRITER_MODS,
@@ -57,6 +81,10 @@ contract(G + '_write_type', params={'self': 'GIRWriter', 'ntype': 'Type', 'relat
                  "if ntype.length_param_name is not None else None)") + "')",
              'C01+C07.emit.array.kind': "all_calls('tagcontext', '" + ARR % (
                  "attr_of(arg_attributes, \\'name\\') == (ntype.array_type if ntype.array_type != ast.Array.C else None)") + "')",
+             'C07.write.type.plain_type_name':
+                 "all_calls('write_tag', 'implies(arg_tag_name == \\'type\\', attr_of(arg_attributes, \\'name\\') == "
+                 "(gir_type_name(self._namespace.name, ntype.target_giname) if ntype.target_giname else "
+                 "(ntype.target_fundamental if ntype.target_fundamental else None)))')",
              'C01+C07.emit.array.ctype': "all_calls('tagcontext', 'attr_of(arg_attributes, \\'c:type\\') == "
                                      "(ntype.complete_ctype if ntype.complete_ctype else (ntype.ctype if ntype.ctype else None))')",
          },
@@ -423,3 +451,81 @@ for _fn, _tag, _par in (('_write_enum', 'enumeration', 'enum'), ('_write_bitfiel
              loops={1: {'index': 'I1', 'modifies': WRITER_MODS, 'invariant': ['wf(self)'], 'var_types': {'member': 'Member'}},
                     2: {'index': 'I2', 'modifies': WRITER_MODS, 'invariant': ['wf(self)'], 'var_types': {'method': 'Function'}}},
              ensures=_e)
+
+
+# ---- <property> and <field>: read/write fixed point of the attribute lists ---------------------------------------------------------
+def EMIT_readable(p):
+    return None if p.readable else '0'
+
+
+def EMIT_bits(f):
+    return str(f.bits) if f.bits else None
+
+
+def or_none(v):
+    return v if v else None
+
+
+PROP_EMITS = {'name': 'prop.name', 'readable': 'EMIT_readable(prop)', 'writable': 'flag(prop.writable)',
+              'construct': 'flag(prop.construct)', 'construct-only': 'flag(prop.construct_only)',
+              'transfer-ownership': 'or_none(prop.transfer)', 'setter': 'or_none(prop.setter)', 'getter': 'or_none(prop.getter)',
+              'default-value': 'or_none(prop.default_value)'}
+GENERIC_MODS = ['*.skip', '*.introspectable', '*.doc', '*.doc_position', '*.version', '*.version_doc', '*.deprecated',
+                '*.deprecated_doc', '*.stability', '*.stability_doc', '*.attributes', '*.file_positions{}']
+contract(P + '_parse_property', params={'self': 'GIRParser', 'node': 'Element', 'parent': 'Class|Interface'}, returns='Property',
+         ghost={'prop': 'Property'}, props=('C07',),
+         requires=[ATTR % (k, v) for k, v in PROP_EMITS.items()] + ['prop.name is not None', 'bool(prop.transfer)'],
+         raises={'AssertionError': 'True', 'KeyError': 'True', 'ValueError': 'True'}, modifies=GENERIC_MODS,
+         ensures=dict([('C07.roundtrip.property.%s' % k, '%s == %s' % (v.replace('prop', 'result'), v)) for k, v in PROP_EMITS.items()]
+                      + [('C07.roundtrip.property.model.flags',
+                          'result.readable == bool(prop.readable) and result.writable == bool(prop.writable) and '
+                          'result.construct == bool(prop.construct) and result.construct_only == bool(prop.construct_only)'),
+                         ('C07.roundtrip.property.model.owner', 'result.parent is parent')]),
+         note='ghost prop: the property whose attributes the writer emitted (C03/C12.emit.property.* of _write_property); '
+              'requires bool(prop.transfer): data invariant of ast.Property (the constructor turns None into none, '
+              'the transformer only assigns transfer modes)')
+
+FIELD_EMITS = {'name': 'field.name', 'readable': 'EMIT_readable(field)', 'writable': 'flag(field.writable)',
+               'bits': 'EMIT_bits(field)', 'private': 'flag(field.private)'}
+_f = dict(generic('C03.emit.field', 'field'))
+# a field holding an anonymous callback is written with its name and the node-generic attributes only (no version attribute):
+_f['C03.emit.field.version'] = "implies(not field.anonymous_node, %s)" % _f['C03.emit.field.version']
+_f.update(dict(('C07.write.field.%s' % k,
+                "implies(not field.anonymous_node, all_calls('tagcontext', 'attr_of(arg_attributes, \\'%s\\') == %s'))" % (k, v))
+               for k, v in FIELD_EMITS.items()))
+_f['C07.write.field.one_field_element'] = ("implies(not field.anonymous_node or isinstance(field.anonymous_node, ast.Callback), "
+                                           "all_calls('tagcontext', 'arg_tag_name == \\'field\\' and "
+                                           "attr_of(arg_attributes, \\'name\\') == field.name'))")
+_f['balanced'] = 'wf(self) and len(self._tag_stack) == old(len(self._tag_stack))'
+for _name, _params in (('_write_callback', {'self': 'GIRWriter', 'callback': 'Callback'}),
+                       ('_write_record', {'self': 'GIRWriter', 'record': 'Record', 'extra_attrs': 'any'}),
+                       ('_write_union', {'self': 'GIRWriter', 'union': 'Union'})):
+    contract(G + _name, params=_params, trusted=True, requires=['wf(self)'], modifies=WRITER_MODS,
+             raises={'ValueError': 'maybe', 'AssertionError': 'maybe'},
+             ensures={'balanced': 'wf(self) and len(self._tag_stack) == old(len(self._tag_stack))'},
+             note='element children; not under contract themselves')
+contract(G + '_write_field', params={'self': 'GIRWriter', 'field': 'Field', 'parent': 'Node?', 'is_gtype_struct': 'bool'},
+         props=('C07', 'C03'), requires=['wf(self)', 'field.anonymous_node is not None or field.type is not None'],
+         modifies=WRITER_MODS,
+         raises={'ValueError': 'True', 'AssertionError': 'True', 'Exception': 'True'}, ensures=_f,
+         note='requires: data invariant of ast.Field (asserted by its constructor): a field has a type or an anonymous node')
+
+for _name, _ret in (('_parse_function_common', 'Callable'), ('_parse_record', 'Record'), ('_parse_union', 'Union')):
+    contract(P + _name, params={'self': 'GIRParser', 'node': 'Element', 'klass': 'any', 'parent': 'any'} if _name == '_parse_function_common'
+             else {'self': 'GIRParser', 'node': 'Element', 'anonymous': 'bool'}, returns=_ret, fresh_result=True, trusted=True,
+             raises={'AssertionError': 'maybe', 'KeyError': 'maybe', 'ValueError': 'maybe'}, modifies=GENERIC_MODS,
+             ensures={'an_instance_of_the_class_asked_for': 'implies(klass is ast.Callback, isinstance(result, ast.Callback))'}
+             if _name == '_parse_function_common' else {},
+             note='child elements of a field: not under contract')
+contract(P + '_parse_field', params={'self': 'GIRParser', 'node': 'Element', 'parent': 'Compound'}, returns='Field',
+         ghost={'field': 'Field'}, props=('C07',),
+         requires=[ATTR % (k, v) for k, v in FIELD_EMITS.items()],
+         raises={'AssertionError': 'True', 'KeyError': 'True', 'ValueError': 'True'}, modifies=GENERIC_MODS,
+         ensures=dict([('C07.roundtrip.field.%s' % k, '%s == %s' % (v.replace('field', 'result'), v)) for k, v in FIELD_EMITS.items()]
+                      + [('C07.roundtrip.field.model.flags',
+                          'result.readable == bool(field.readable) and result.writable == bool(field.writable) and '
+                          'result.private == bool(field.private)'),
+                         ('C07.roundtrip.field.model.owner', 'result.parent is parent'),
+                         ('C07.roundtrip.field.typed_or_anonymous',
+                          "(result.type is not None) == (result.anonymous_node is None)")]),
+         note='ghost field: the field whose attributes the writer emitted (C07.write.field.* of _write_field)')
